@@ -2,7 +2,7 @@
 # tools/intake.sh <Cnn> <round> [extra props...]: take over a sub-agent's seeded change from its scratch
 # worktree /tmp/wt-r<round>-<Cnn>: copy patch, demonstration and notes to seeded/agent-<Cnn>-<round>/,
 # confirm it in the worktree (suite passes with it, demonstration fails with it and passes without),
-# run the property's quick check (and those of the extra properties) against it in /repo, undo.
+# run the quick checks against it in a scratch worktree (tools/seed_try_iso.sh; /repo is not touched).
 p="$1"; r="$2"; shift 2
 wt=/tmp/wt-r$r-$p; sd=/verif/seeded/agent-$p-$r
 [ -f $wt/mutation.diff ] || { echo "no mutation.diff in $wt"; exit 2; }
@@ -13,4 +13,4 @@ cp $sd/patch.diff $wt/mutation.diff
 /verif/tools/confirm_agent.sh $wt $sd > /dev/null 2>&1
 echo "== confirm"; cat $sd/confirm.txt
 echo "== checks"
-/verif/tools/seed_try.sh $sd/patch.diff $p "$@" 2>&1 | tee $sd/result.txt
+/verif/tools/seed_try_iso.sh $sd/patch.diff $p "$@" 2>&1 | tee $sd/result.txt
